@@ -215,7 +215,7 @@ impl Property for C14 {
         "C14"
     }
     fn rule(&self) -> String {
-        "templates: programs of the generator (all features, chain-specific directives in 70% of them) lowered by the real front end, with type-correct but hostile arguments (integers from the i128 boundary set, byte strings of length 0/1/27..33/56/57/64 where 28 or 32 are expected, addresses of every Shelley kind, Byron-like, pointer, wrong-length and empty ones, UTxO references with short ids and index u32::MAX), stores that are empty, huge, hold negative amounts, odd class names and datums of any shape, protocol parameters with 0 / u64::MAX coefficients and missing cost models, fresh and used compiler instances; wallets: one input query (by address and / or token) against wallets with 0..120 full matches and 0..60 partial ones (both sides of the selection window of 50 and of the 10 references an error message lists); fee-loop: a payment template with change = source - quantity - fees, swept in steps of the fee coefficient across the amounts where the change crosses a CBOR width boundary (where the loop fee -> transaction -> fee has a late fixed point or none), with round budgets 0, 1, 2, 3, 10, 100; directives (exhaustive): cardano_publish / plutus_witness / native_witness directives x 11 version numbers (0..4, 255..257, -1, 2^64, i128::MAX) x 9 kinds of script bytes (valid native script, empty, garbage, truncated, native scripts nested 10..5000 deep, Plutus-like) through compile; deep-native-script: native scripts nested 20000..200000 deep in a native_witness / a version-0 cardano_publish; deep-chains: chains of 4..64 operations (add, sub, negate, coercion, property) over a pending parameter / fee / input datum, through reduce (twice), apply_args, apply_fees and reduce - each stage must return within the case budget; trees: random well-formed IR trees (every Expression / Param / op variant, depth <= 6) a client could send, with arguments for their parameters. Every public back-end entry point is driven (find_params, find_queries, is_constant, apply_args, apply_fees, Node::apply(compiler), reduce, apply_inputs, compile, inputs::resolve, resolve_tx). Oracle: each call returns; a panic (hook: message, file, first in-repo function), an abort (worker signal) or a reproducible watchdog overrun is a violation. Non-trivial: every case; distinct = distinct (IR, arguments).".into()
+        "templates: programs of the generator (all features, chain-specific directives in 70% of them) lowered by the real front end, with type-correct but hostile arguments (integers from the i128 boundary set, byte strings of length 0/1/27..33/56/57/64 where 28 or 32 are expected, addresses of every Shelley kind, Byron-like, pointer, wrong-length and empty ones, UTxO references with short ids and index u32::MAX), stores that are empty, huge, hold negative amounts, odd class names and datums of any shape, protocol parameters with 0 / u64::MAX coefficients and missing cost models, fresh and used compiler instances; wallets: one input query (by address and / or token) against wallets with 0..120 full matches and 0..60 partial ones (both sides of the selection window of 50 and of the 10 references an error message lists); fee-loop: a payment template with change = source - quantity - fees, swept in steps of the fee coefficient across the amounts where the change crosses a CBOR width boundary (where the loop fee -> transaction -> fee has a late fixed point or none), with round budgets 0, 1, 2, 3, 10, 100 (and usize::MAX, usize::MAX - 1 on an instance that converges); directives (exhaustive): cardano_publish / plutus_witness / native_witness directives x 11 version numbers (0..4, 255..257, -1, 2^64, i128::MAX) x 9 kinds of script bytes (valid native script, empty, garbage, truncated, native scripts nested 10..5000 deep, Plutus-like) through compile; deep-native-script: native scripts nested 20000..200000 deep in a native_witness / a version-0 cardano_publish; deep-chains: chains of 4..64 operations (add, sub, negate, coercion, property) over a pending parameter / fee / input datum, through reduce (twice), apply_args, apply_fees and reduce - each stage must return within the case budget; trees: random well-formed IR trees (every Expression / Param / op variant, depth <= 6) a client could send, with arguments for their parameters. Every public back-end entry point is driven (find_params, find_queries, is_constant, apply_args, apply_fees, Node::apply(compiler), reduce, apply_inputs, compile, inputs::resolve, resolve_tx). Oracle: each call returns; a panic (hook: message, file, first in-repo function), an abort (worker signal) or a reproducible watchdog overrun is a violation. Non-trivial: every case; distinct = distinct (IR, arguments).".into()
     }
     fn assumptions(&self) -> Vec<String> {
         vec![
@@ -401,6 +401,18 @@ impl Property for C14 {
                 let mut c = crate::env::compiler(&pp);
                 crate::panics::catch(|| pollster::block_on(tx3_resolver::resolve_tx(AnyTir::V1Beta0(lowered.clone()), &pay_args(q), &mut c, &store, limit)))
             };
+            // the largest round budgets a caller can pass ("iterate until stable"), on an instance that is far from
+            // every width boundary and therefore converges
+            {
+                let big = *rng.pick(&[usize::MAX, usize::MAX - 1, usize::MAX / 2, u32::MAX as usize]);
+                let store = crate::env::LoggedStore::new(single_utxo_store(900_000_000_000, 0, 9));
+                let mut c = crate::env::compiler(&pp);
+                ctx.eval();
+                ctx.count("fee-loop/unbounded-budget");
+                if let Err(p) = crate::panics::catch(|| pollster::block_on(tx3_resolver::resolve_tx(AnyTir::V1Beta0(lowered.clone()), &pay_args(q), &mut c, &store, big))) {
+                    ctx.violation(format!("panic:fee-loop:{}", p.signature()), json!({"source": src, "max_optimize_rounds": big.to_string(), "panic": p.message}));
+                }
+            }
             let fee_level = match run(900_000_000_000) {
                 Ok(Ok(c)) => c.fee as i128,
                 _ => 400_000,
